@@ -218,13 +218,17 @@ def get_parser(which="repo"):
 
 
 def xparse(src, mode, which="repo"):
+    """one guarded call of Parser.parse: the guard counts the worker's own CPU time (a parser that loops burns CPU; a machine that is
+    busy with other checks must not look like a hang), with a wall-clock backstop ten times as long"""
     p = get_parser(which)
-    old = signal.signal(signal.SIGALRM, _on_alarm)
-    signal.setitimer(signal.ITIMER_REAL, PARSE_TIMEOUT)
+    old_prof = signal.signal(signal.SIGPROF, _on_alarm)
+    old_real = signal.signal(signal.SIGALRM, _on_alarm)
+    signal.setitimer(signal.ITIMER_PROF, PARSE_TIMEOUT)
+    signal.setitimer(signal.ITIMER_REAL, PARSE_TIMEOUT * 10)
     try:
         return "ok", p.parse(src, mode=mode)
     except _Timeout:
-        return "hang", f"no answer within {PARSE_TIMEOUT}s"
+        return "hang", f"no answer within {PARSE_TIMEOUT}s of CPU time"
     except SyntaxError as e:
         return "reject", f"{type(e).__name__}: {str(e)[:160]}"
     except RecursionError:
@@ -232,8 +236,10 @@ def xparse(src, mode, which="repo"):
     except BaseException as e:  # noqa: BLE001
         return "crash", f"{type(e).__name__}: {str(e)[:160]}"
     finally:
+        signal.setitimer(signal.ITIMER_PROF, 0)
         signal.setitimer(signal.ITIMER_REAL, 0)
-        signal.signal(signal.SIGALRM, old)
+        signal.signal(signal.SIGPROF, old_prof)
+        signal.signal(signal.SIGALRM, old_real)
 
 
 def check(src, mode, which="repo", expect=(), ctree=None):
@@ -1141,85 +1147,6 @@ def d_eval_newline(u):
     return []
 
 
-# ====================================================================================================== classification
-def classify(unit_src, unit_mode, r, which="repo"):
-    """explain the failure `r` of a minimal unit by known forms: a form applies when its syntactic predicate holds on the unit AND
-    the failure has the form's signature; its cure (a targeted source edit, or the form's model of the wrong tree) is applied and
-    the unit re-checked, until it passes.  -> (list of forms, None) when explained, (None, (residual_src, residual_failure)) when
-    something is left that no known form explains."""
-    applied, cur, cur_r = [], unit_src, r
-    for _ in range(8):
-        try:
-            u = U(cur, unit_mode)
-        except (SyntaxError, ValueError):
-            return None, (cur, cur_r)
-        pick = None
-        for f in FORMS:
-            if f in applied or unit_mode not in f.modes or not f.matches_failure(cur_r):
-                continue
-            try:
-                det = f.detect(u)
-            except Exception as e:  # noqa: BLE001  (a classifier tripping over exotic input explains nothing)
-                det = None
-                del e
-            if det:
-                pick = (f, det)
-                break
-        if pick is None:
-            return None, (cur, cur_r)
-        f, det = pick
-        applied.append(f)
-        if isinstance(det, list):
-            cur = apply_edits(u.srcb, det)
-        r2 = check(cur, unit_mode, which, expect=[g for g in applied if g.expect or g.compile_msg])
-        if r2 is None:
-            return _minimal_set(unit_src, unit_mode, which, applied), None
-        if r2 == "skip":
-            return None, (cur, {"kind": "cure-invalid", "detail": f"the cure of {f.key} produced text CPython rejects"})
-        cur_r = r2
-    return None, (cur, cur_r)
-
-
-def _minimal_set(unit_src, unit_mode, which, applied):
-    """drop forms whose cure was not needed"""
-    if len(applied) < 2:
-        return applied
-    keep = list(applied)
-    for f in list(applied):
-        trial = [g for g in keep if g is not f]
-        cur = unit_src
-        ok = True
-        for g in trial:
-            try:
-                det = g.detect(U(cur, unit_mode))
-            except Exception:  # noqa: BLE001
-                ok = False
-                break
-            if isinstance(det, list) and det:
-                cur = apply_edits(cur.encode("utf-8"), det)
-        if ok and check(cur, unit_mode, which, expect=[g for g in trial if g.expect or g.compile_msg]) is None:
-            keep = trial
-    return keep
-
-
-def examine(src, mode, which="repo"):
-    """full pipeline for one input -> None (holds) | "skip" | {"failure":…, "units":[{"src","mode","failure","forms":[keys]|None,"residual":…}]}"""
-    r, units = failing_units(src, mode, which)
-    if r in (None, "skip"):
-        return r
-    out = {"failure": r, "units": []}
-    for us, um, ur in units:
-        if ur["kind"] == "unlocalised":
-            # could not be cut down: classify the input as a whole
-            whole_r = check(us, um, which)
-            forms, residual = classify(us, um, whole_r, which) if whole_r not in (None, "skip") else (None, (us, ur))
-        else:
-            forms, residual = classify(us, um, ur, which)
-        out["units"].append({"src": us, "mode": um, "failure": ur, "forms": [f.key for f in forms] if forms is not None else None,
-                             "residual": None if residual is None else {"src": residual[0], "failure": residual[1]}})
-    return out
-
-
 # ---------------------------------------------------------------------------------------------------- match statements
 @form(
     "match-sequence-last-element-sequence",
@@ -1550,6 +1477,85 @@ def d_matmul_paren(u):
     return ed
 
 
+# ====================================================================================================== classification
+def classify(unit_src, unit_mode, r, which="repo"):
+    """explain the failure `r` of a minimal unit by known forms: a form applies when its syntactic predicate holds on the unit AND
+    the failure has the form's signature; its cure (a targeted source edit, or the form's model of the wrong tree) is applied and
+    the unit re-checked, until it passes.  -> (list of forms, None) when explained, (None, (residual_src, residual_failure)) when
+    something is left that no known form explains."""
+    applied, cur, cur_r = [], unit_src, r
+    for _ in range(8):
+        try:
+            u = U(cur, unit_mode)
+        except (SyntaxError, ValueError):
+            return None, (cur, cur_r)
+        pick = None
+        for f in FORMS:
+            if f in applied or unit_mode not in f.modes or not f.matches_failure(cur_r):
+                continue
+            try:
+                det = f.detect(u)
+            except Exception as e:  # noqa: BLE001  (a classifier tripping over exotic input explains nothing)
+                det = None
+                del e
+            if det:
+                pick = (f, det)
+                break
+        if pick is None:
+            return None, (cur, cur_r)
+        f, det = pick
+        applied.append(f)
+        if isinstance(det, list):
+            cur = apply_edits(u.srcb, det)
+        r2 = check(cur, unit_mode, which, expect=[g for g in applied if g.expect or g.compile_msg])
+        if r2 is None:
+            return _minimal_set(unit_src, unit_mode, which, applied), None
+        if r2 == "skip":
+            return None, (cur, {"kind": "cure-invalid", "detail": f"the cure of {f.key} produced text CPython rejects"})
+        cur_r = r2
+    return None, (cur, cur_r)
+
+
+def _minimal_set(unit_src, unit_mode, which, applied):
+    """drop forms whose cure was not needed"""
+    if len(applied) < 2:
+        return applied
+    keep = list(applied)
+    for f in list(applied):
+        trial = [g for g in keep if g is not f]
+        cur = unit_src
+        ok = True
+        for g in trial:
+            try:
+                det = g.detect(U(cur, unit_mode))
+            except Exception:  # noqa: BLE001
+                ok = False
+                break
+            if isinstance(det, list) and det:
+                cur = apply_edits(cur.encode("utf-8"), det)
+        if ok and check(cur, unit_mode, which, expect=[g for g in trial if g.expect or g.compile_msg]) is None:
+            keep = trial
+    return keep
+
+
+def examine(src, mode, which="repo"):
+    """full pipeline for one input -> None (holds) | "skip" | {"failure":…, "units":[{"src","mode","failure","forms":[keys]|None,"residual":…}]}"""
+    r, units = failing_units(src, mode, which)
+    if r in (None, "skip"):
+        return r
+    out = {"failure": r, "units": []}
+    for us, um, ur in units:
+        if ur["kind"] == "unlocalised":
+            # could not be cut down: classify the input as a whole
+            whole_r = check(us, um, which)
+            forms, residual = classify(us, um, whole_r, which) if whole_r not in (None, "skip") else (None, (us, ur))
+        else:
+            forms, residual = classify(us, um, ur, which)
+        out["units"].append({"src": us, "mode": um, "failure": ur, "forms": [f.key for f in forms] if forms is not None else None,
+                             "residual": None if residual is None else {"src": residual[0], "failure": residual[1]}})
+    return out
+
+
 # ====================================================================================================== worker pool
 def _init_worker(fresh_dir, timeout):
     global FRESH_DIR, PARSE_TIMEOUT
@@ -1561,7 +1567,10 @@ def _init_worker(fresh_dir, timeout):
 
 def _record(stream, origin, src, mode, which, res, stats):
     stats["evaluations"] = stats.get("evaluations", 0) + 1
+    stats[f"stream/{stream}"] = stats.get(f"stream/{stream}", 0) + 1
     stats[f"mode/{mode}"] = stats.get(f"mode/{mode}", 0) + 1
+    if f"sample/{stream}" not in stats and len(src) < 400:
+        stats[f"sample/{stream}"] = {"mode": mode, "origin": origin, "source": src, "verdict": "holds" if res is None else ("skipped" if res == "skip" else res["failure"]["kind"])}
     if res == "skip":
         stats["skipped: CPython itself rejects / cannot handle the text"] = stats.get("skipped: CPython itself rejects / cannot handle the text", 0) + 1
         return None
@@ -1671,7 +1680,22 @@ class Pool:
                 raise common.InfraError(f"a parser worker died ({t.get('kind')}): {e}")
 
     def close(self):
+        # the check leaves through os._exit: workers that still hold queued work would be orphaned (and keep the caller's pipes
+        # open), so they are terminated here, not just told to finish
+        procs = list(getattr(self.ex, "_processes", {}).values())
         self.ex.shutdown(wait=False, cancel_futures=True)
+        for p in procs:
+            try:
+                p.terminate()
+            except Exception:  # noqa: BLE001
+                pass
+        for p in procs:
+            try:
+                p.join(2)
+                if p.is_alive():
+                    p.kill()
+            except Exception:  # noqa: BLE001
+                pass
 
 
 # ====================================================================================================== parser-table freshness
@@ -1968,14 +1992,16 @@ def _absorb(ctx, records, stats):
 
 def _run_tasks(ctx, pool, stream_names, tasks):
     for records, stats in pool.map(tasks):
-        n = stats.get("evaluations", 0)
-        per = {}
-        for r in records:
-            per[r["stream"]] = per.get(r["stream"], 0) + 1
-        # evaluations are attributed to the task's main stream; failures carry their own stream name
-        st = ctx.streams.setdefault(stream_names[0], {"evaluations": 0, "distinct_nontrivial": 0})
-        st["evaluations"] += n
-        st["distinct_nontrivial"] += n  # every input is a distinct program (deduplicated per worker)
+        for k in [k for k in stats if k.startswith("stream/")]:
+            st = ctx.streams.setdefault(k[len("stream/"):], {"evaluations": 0, "distinct_nontrivial": 0})
+            st["evaluations"] += stats[k]
+            st["distinct_nontrivial"] += stats[k]  # every input is a distinct program text (deduplicated per worker)
+            del stats[k]
+        for k in [k for k in stats if k.startswith("sample/")]:
+            nm = k[len("sample/"):]
+            if len([x for x in ctx.samples if x.get("stream") == nm]) < 2:
+                ctx.samples.append({"stream": nm, "case": stats[k]})
+            del stats[k]
         _absorb(ctx, records, stats)
         if ctx.enough_failures(12):
             break
@@ -2018,6 +2044,9 @@ def replay_known(ctx, pool):
             items.append((f["key"], w["source"], w["mode"]))
     got = {}
     for records, stats in pool.map([{"kind": "texts", "stream": "known-witness", "items": items, "parsers": ["repo"]}]):
+        st = ctx.streams.setdefault("known-witness", {"evaluations": 0, "distinct_nontrivial": 0})
+        st["evaluations"] += stats.get("stream/known-witness", 0)
+        st["distinct_nontrivial"] += stats.get("stream/known-witness", 0)
         for rec in records:
             keys = set()
             for u in rec["units"]:
@@ -2054,8 +2083,6 @@ def run(ctx):
         "(targeted edit or modelled wrong tree) makes the unit parse to CPython's tree; anything else is a new form."
     )
     quick = ctx.quick()
-    if os.environ.get("C01_FINDINGS_FROM_FORMS"):  # development only: the registry instead of known_findings.json
-        ctx.known = [{"property": ID, "key": f.key, "status": "open", "what": f.what, "witness": {"inputs": [{"source": s, "mode": m} for s, m in f.witness]}} for f in FORMS]
     fresh_dir, rep = regenerate_table(ctx)
     ctx.extra["parser_table"] = rep
     parsers = ["repo"]
@@ -2086,20 +2113,16 @@ def run(ctx):
         files = list_files()
         ctx.extra["files_available"] = len(files)
         if quick:
-            files = ctx.rng.sample(files, min(300, len(files)))
+            files = ctx.rng.sample(files, min(400, len(files)))
         else:
             ctx.rng.shuffle(files)
         nchunks = 64 if quick else 256
         _run_tasks(ctx, pool, ["files"], [{"kind": "files", "paths": files[i::nchunks], "modes": True, "parsers": parsers} for i in range(nchunks)])
-        ngen = ctx.n(64, 640)
+        ngen = ctx.n(128, 1500)
         base = ctx.rng.randrange(1 << 30)
-        _run_tasks(ctx, pool, ["generated"], [{"kind": "gen", "seed": base + i, "count": ctx.n(24, 60), "depths": [1, 2, 2, 3], "rewrites": 2, "parsers": parsers} for i in range(ngen)])
+        _run_tasks(ctx, pool, ["generated"], [{"kind": "gen", "seed": base + i, "count": ctx.n(24, 60), "depths": ctx.n([1, 2, 2, 3], [1, 2, 2, 3, 3, 4]), "rewrites": 2, "parsers": parsers} for i in range(ngen)])
     finally:
         pool.close()
-    # evaluations of sub-streams that share a task
-    for nm in ("files/statement", "rewrites", "known-witness"):
-        ctx.streams.setdefault(nm, {"evaluations": 0, "distinct_nontrivial": 0})
-    ctx.streams["files/statement"]["evaluations"] = ctx.counters.get("mode/single", 0)
     more = getattr(ctx, "_c01_more", set())
     if more:
         ctx.extra["known_forms_seen_more_often_than_stored"] = sorted(more)
